@@ -134,6 +134,7 @@ def stats(traces):
 def run_layers(ck, plan, prefixes, conformance=True, seeds=None):
     """plan: list of (mode, n_runs). Generates traces with the real participants, validates Layer A (verdicts) and Layer B (drift)."""
     binary = vlib.build_driver("consensus", ck.dir)
+    ck.binary = binary
     traces = []
     outdir = os.path.join(ck.dir, "traces")
     shutil.rmtree(outdir, ignore_errors=True)
@@ -155,14 +156,153 @@ def run_layers(ck, plan, prefixes, conformance=True, seeds=None):
     return traces, st
 
 
-def design_check(ck, pid):
-    """Design-level TLC checks of the consensus specs for property pid (filled in per property below)."""
-    return
+# ----------------------------------------------------------------------------- spec -> code: TLC-generated schedules
+
+_re_hist = re.compile(r'<<\s*"VERIF_HIST",\s*"(.*?)"\s*>>', re.S)
+_re_attack = re.compile(r'<<\s*"VERIF_ATTACK",\s*"(\w+)",\s*"(.*?)"\s*>>', re.S)
+
+# model configurations of spec/consensus/MCGPBFT.tla and their concrete counterpart for the driver
+MODELS = {
+    "nest": dict(Chains="ChainsNest", Input="InputNest", powers=[1, 1, 1, 1], byz=[4], inputs=[[0, 1, 2], [0, 1], [0, 3], [0]]),
+    "nest3": dict(Chains="ChainsNest", Input="InputNest3", powers=[1, 1, 1, 1], byz=[4], inputs=[[0, 1, 2], [0, 1, 2], [0, 1], [0]]),
+    "forkx": dict(Chains="ChainsForkX", Input="InputFork", powers=[1, 1, 1, 1], byz=[4], inputs=[[0, 1], [0, 1], [0, 3], [0]]),
+    "foreign": dict(Chains="ChainsForeign", Input="InputFork", powers=[1, 1, 1, 1], byz=[4], inputs=[[0, 1], [0, 1], [0, 3], [0]]),
+    # three members, scaled total 65534 (not divisible by 3), the Byzantine member holds floor(total/3) < 1/3: the rounding boundary
+    "bound3": dict(Chains="ChainsFork", Input="InputTwo", H="{1, 2}", B="{3}", Power="PowerBound3", Order="Order3", powers=[21845, 21845, 21844], byz=[3],
+                   inputs=[[0, 1], [0, 3], [0]]),
+    "fork": dict(Chains="ChainsFork", Input="InputFork", powers=[1, 1, 1, 1], byz=[4], inputs=[[0, 1], [0, 1], [0, 3], [0]]),
+}
 
 
-def attack_replays(ck, pid):
-    """Replay of TLC-generated attack schedules on real participants (filled in below when the library exists)."""
-    return
+def _unescape(s):
+    return json.loads('"' + s.replace("\n", "") + '"')
+
+
+def mcg_cfg(model, maxround=2, rank="RankMix", depth=70, noop=False, invariants=(), properties=(), overrides=()):
+    m = MODELS[model]
+    lines = ["SPECIFICATION MSpec", "CONSTANTS", "  H = %s" % m.get("H", "{1, 2, 3}"), "  B = %s" % m.get("B", "{4}"), "  Power <- %s" % m.get("Power", "Power4"),
+             "  Chains <- %s" % m["Chains"],
+             "  MaxRound = %d" % maxround, "  Rank <- %s" % rank, "  Lookahead = 0", "  Order <- %s" % m.get("Order", "Order4"), "  Input <- %s" % m["Input"],
+             "  Depth = %d" % depth, "  Noop = %s" % ("TRUE" if noop else "FALSE")]
+    lines += ["  " + o for o in overrides]
+    lines += ["INVARIANT " + i for i in invariants]
+    lines += ["PROPERTY " + q for q in properties]
+    lines.append("CHECK_DEADLOCK FALSE")
+    return "\n".join(lines) + "\n"
+
+
+DESIGN_INVS = ("MAgreement", "MValidity", "MOneVotePerSlot", "MEmitsValid", "MEvidenceBacked")
+
+
+def tlc_simulate(ck, name, model, num, depth, seed, maxround=2, rank="RankMix", noop=False, workers=4, timeout=600, export=True,
+                 overrides=(), invariants=DESIGN_INVS, properties=("MProgressMonotone",)):
+    """Random walks of the per-message model; design-level invariants checked on every state; returns (TLCResult, [histories])."""
+    invs = list(invariants) + (["Export"] if export else [])
+    cfg = mcg_cfg(model, maxround, rank, depth, noop, invs, properties, overrides)
+    r = vlib.tlc(SPECDIR, "MCGPBFT", "gen.cfg", workdir=os.path.join(ck.dir, "tlc-" + name), workers=workers, timeout=timeout,
+                 simulate="num=%d" % max(1, num // workers), depth=depth + 1, seed=seed, extra_files={"gen.cfg": cfg.encode()})
+    hists = [json.loads(_unescape(h)) for h in _re_hist.findall(r.out)]
+    m = re.search(r"The number of states generated: (\d+)", r.out)
+    if m:
+        r.generated = r.distinct = int(m.group(1))
+    return r, hists
+
+
+def scripts_from(model, hists, prefix, cont=True):
+    m = MODELS[model]
+    return [dict(name="%s%d" % (prefix, k), powers=m["powers"], byz=m["byz"], inputs=m["inputs"], lookahead=0, steps=h) for k, h in enumerate(hists)]
+
+
+def run_scripts(ck, binary, scripts, tag, cont=True, seed=1):
+    outdir = os.path.join(ck.dir, "traces-" + tag)
+    shutil.rmtree(outdir, ignore_errors=True)
+    os.makedirs(outdir, exist_ok=True)
+    for s in scripts:
+        s["continue"] = cont
+    sf = os.path.join(outdir, "scripts.json")
+    json.dump(scripts, open(sf, "w"))
+    rc, out = vlib.run_driver(binary, "TestConsensusScripts", env=dict(VERIF_OUTDIR=outdir, VERIF_SCRIPTS=sf, VERIF_TAG=tag, VERIF_SEED=str(seed)), timeout=1200)
+    if rc != 0:
+        raise Inconclusive("script driver failed (%s):\n%s" % (tag, out[-3000:]))
+    return sorted(glob.glob(os.path.join(outdir, "%s-%d-*.ndjson" % (tag, seed))))
+
+
+def quorum_design(ck, cfgs, mutants, timeout=1500, workers=None):
+    """Exhaustive design-level check on the quorum-view abstraction: every cfg in cfgs must hold on all reachable states,
+    every cfg in mutants (a named weakening, or Byzantine power at the 1/3 bound) must be refuted by TLC (non-vacuity)."""
+    for cfg in cfgs:
+        r = vlib.tlc(SPECDIR, "MCGPBFTQuorum", cfg + ".cfg", workdir=os.path.join(ck.dir, "tlc-" + cfg), workers=workers or max(2, vlib.NCPU - 2), timeout=timeout)
+        ck.require_tlc_ok(cfg, r, "design check (GPBFTQuorum)")
+        ck.add_tlc("design:" + cfg, r, exhaustive=True, note="all schedules x all Byzantine strategies of the quorum-view abstraction within the cfg's bounds")
+    for cfg in mutants:
+        r = vlib.tlc(SPECDIR, "MCGPBFTQuorum", cfg + ".cfg", workdir=os.path.join(ck.dir, "tlc-" + cfg), workers=workers or max(2, vlib.NCPU - 2), timeout=timeout)
+        if r.error or not r.violated:
+            raise Inconclusive("mutant configuration %s was not refuted by TLC (invariant vacuous?): %s\n%s" % (cfg, r.error, r.out[-1500:]))
+        ck.cov["configs"].append(dict(config="mutant:" + cfg, refuted_by=r.violated, counterexample_states=len(r.trace), distinct=r.distinct, wall_s=round(r.wall, 1)))
+
+
+def permsg_design(ck, name, model, walks, depth=70, maxround=2, seed=None, rank="RankMix", timeout=900):
+    """Design-level check of the implementation-shaped per-message model by TLC simulation (random walks, every state checked);
+    returns the exported histories (schedules) for replay on the real participants."""
+    r, hists = tlc_simulate(ck, name, model, walks, depth, ck.seed if seed is None else seed, maxround=maxround, rank=rank, timeout=timeout,
+                            workers=max(2, min(8, vlib.NCPU - 2)))
+    if r.error or r.violated:
+        raise Inconclusive("per-message model MCGPBFT (%s): %s %s -- design-level counterexample, to be reproduced on the code before it counts\n%s"
+                           % (name, r.violated, r.error, r.out[-3000:]))
+    ck.add_tlc("design:MCGPBFT-sim-" + name, r, exhaustive=False, note="%d random walks of depth <= %d, invariants %s checked on every state" % (walks, depth, ",".join(DESIGN_INVS)))
+    seen, out = set(), []
+    for h in hists:
+        k = json.dumps(h, sort_keys=True)
+        if k not in seen:
+            seen.add(k)
+            out.append(h)
+    return out
+
+
+def replay_conformance(ck, binary, model, hists, prefixes, tag="rconf", conformance=True):
+    """R-conf: TLC-chosen schedules (behaviours of MCGPBFT.tla) executed on real participants, then judged like any other trace."""
+    if not hists:
+        raise Inconclusive("no schedule exported by TLC")
+    traces = run_scripts(ck, binary, scripts_from(model, hists, tag), tag, cont=True, seed=ck.seed)
+    st = stats(traces)
+    resA = validate(ck, "GPBFTObs", "GPBFTObs.cfg", traces, tag + "-obs")
+    judge_obs(ck, resA, prefixes, what="replay of a TLC-generated schedule")
+    if conformance and not ck.violations:
+        resB = validate(ck, "GPBFTTrace", "GPBFTTrace.cfg", traces, tag + "-conf")
+        judge_conf(ck, resB)
+    ck.cov.setdefault("replayed_tlc_schedules", 0)
+    ck.cov["replayed_tlc_schedules"] += len(hists)
+    ck.cov.setdefault("antecedents", {})
+    for k, v in st.items():
+        ck.cov["antecedents"]["rconf_" + k] = ck.cov["antecedents"].get("rconf_" + k, 0) + v
+    return traces
+
+
+def load_attacks():
+    out = []
+    for f in sorted(glob.glob(os.path.join(vlib.ROOT, "attacks", "*.json"))):
+        out.append(json.load(open(f)))
+    return out
+
+
+def attack_replays(ck, binary, prefixes):
+    """R-attack: the committed library of TLC counterexamples of mutant configurations (attacks/*.json) replayed on real participants."""
+    atts = load_attacks()
+    if not atts:
+        raise Inconclusive("attack library is empty")
+    scripts = [dict(name=a["name"], powers=a["powers"], byz=a["byz"], inputs=a["inputs"], lookahead=a.get("lookahead", 0), steps=a["steps"]) for a in atts]
+    traces = run_scripts(ck, binary, scripts, "attack", cont=True, seed=ck.seed)
+    st = stats(traces)
+    res = validate(ck, "GPBFTObs", "GPBFTObs.cfg", traces, "attack-obs")
+    judge_obs(ck, res, prefixes, what="replay of a TLC-generated attack schedule")
+    ck.cov["attack_schedules_replayed"] = len(atts)
+    ck.cov["attack_mutants"] = sorted({a["mutant"] for a in atts})
+    ck.cov.setdefault("antecedents", {})
+    ck.cov["antecedents"]["attack_rejected_by_real_validator"] = st["rejected"]
+    ck.cov["antecedents"]["attack_events"] = st["events"]
+    if not ck.violations and st["rejected"] == 0:
+        raise Inconclusive("attack replays: the real validator never had to refuse anything (library stale?)")
+    return traces
 
 
 def gst_stats(traces):
